@@ -268,3 +268,55 @@ BOUNDED = [{"name": "subcommand-trees-vs-selection-model", "script": "bounded/b1
 from contracts.share import shared  # noqa: E402
 UNITS += shared("C17", "contracts.c03", '_ActionSubCommands.add_subcommand')
 UNITS += shared("C17", "contracts.c04", 'ArgumentParser._load_env_vars')
+
+
+# ------------------------------------------------------------------------------------- add_subcommands
+def asub_setup(ctx):
+    required_sel = ["omitted", "True", "False"][ctx.choose(3, "required")]
+    dest_given = ctx.choose(2, "dest-given") == 1
+    descr_given = ctx.choose(2, "description-given") == 1
+    fails = ctx.choose(2, "argparse-refuses(e.g. a second subcommands action)") == 1
+    dcf = ["~/.app.yaml"]
+    required_args = set()
+    action = Rec("_ActionSubCommands", attrs={"required": True})
+    seen_dcf = []
+
+    def add_subparsers(c, s_, a, k):
+        seen_dcf.append(list(self.attrs["default_config_files"]))
+        c.event("add_subparsers", dict(k))
+        if fails:
+            raise PyRaise(ExcVal("ArgumentError", args=("cannot have multiple subparser arguments",), origin="argparse.add_subparsers"))
+        return action
+
+    self = Rec("ArgumentParser", attrs={"default_config_files": dcf, "required_args": required_args})
+    env = {"self": self, "kwargs": {"description": "given"} if descr_given else {}}
+    if required_sel != "omitted":
+        env["required"] = required_sel == "True"
+    if dest_given:
+        env["dest"] = "cmd"
+    calls = {"super": lambda c, a, k: Rec("super()", methods={"add_subparsers": add_subparsers}), "get_env_var": lambda c, a, k: ("env-var-of", a[0])}
+    return Setup(env=env, calls=calls, data=dict(required=required_sel != "False", dest="cmd" if dest_given else "subcommand", descr_given=descr_given, fails=fails, dcf=dcf, self_=self, action=action,
+                                                 required_args=required_args, seen_dcf=seen_dcf))
+
+
+def asub_post(ctx, st, result):
+    d = st.data
+    tag = f"[required={d['required']},dest={d['dest']}]"
+    a = d["action"].attrs
+    ctx.oblige("post", "a-required-subcommand(the default)-is-recorded-under-its-dest-and-enforced-by-this-parser(argparse's own flag is cleared)" + tag,
+               d["required_args"] == ({d["dest"]} if d["required"] else set()) and a.get("_required") is d["required"] and a.get("required") is False)
+    ctx.oblige("post", "the-action-knows-its-parent-parser-and-the-environment-prefix-of-its-subcommands" + tag, a.get("parent_parser") is d["self_"] and a.get("env_prefix") == ("env-var-of", d["self_"]))
+    ev = [e for e in ctx.events if e[0] == "add_subparsers"]
+    ctx.oblige("post", "argparse-declares-it-once-under-the-dest(default: subcommand)" + tag, len(ev) == 1 and ev[0][1].get("dest") == d["dest"] and (ev[0][1].get("description") == "given" if d["descr_given"] else "description" in ev[0][1]))
+    ctx.oblige("post", "the-parser-remembers-its-subcommands-action-and-returns-it" + tag, result is d["action"] and d["self_"].attrs.get("_subcommands_action") is d["action"])
+    ctx.oblige("frame", "the-default-config-files-are-what-they-were(they are only hidden from argparse while it builds the action)" + tag, d["self_"].attrs["default_config_files"] is d["dcf"] and d["seen_dcf"] == [[]])
+
+
+def asub_raises(ctx, st, exc):
+    d = st.data
+    ctx.oblige("raises", f"only-argparse's-refusal-propagates(got {exc.cls}@{exc.origin})", d["fails"] and exc.origin == "argparse.add_subparsers")
+    ctx.oblige("frame", "a-refused-declaration-leaves-the-parser's-default-config-files-as-they-were", d["self_"].attrs["default_config_files"] is d["dcf"])
+
+
+UNITS.append(Unit("C17", "jsonargparse._core:ArgumentParser.add_subcommands", asub_setup, asub_post, asub_raises, expect_cover=("return", "raise:ArgumentError"),
+                  trusted=["argparse.add_subparsers (super()) creates the action or refuses through parser.error", "get_env_var: its own unit"]))
